@@ -11,14 +11,16 @@ from vlib import sqlo
 
 PROP = 'C10'
 META = {
-    'extractors': ['slice'],
-    'technique': 'Lean 4 proof (induction over the slice chain; window algebra) + extracted LIMIT/OFFSET tables + differential correspondence',
-    'level_text': ('Theorem C10_chain_eq_list_slicing: for every row list, every chain of slices and optional index, '
-                   'the model of SelectResults.__getitem__ + the dialect window clause equals Python list slicing, '
-                   'for sqlite, mysql and postgres; the dialect clause tables and the Select guard are regenerated '
-                   'from /repo on every run and the hand-written __getitem__ model is compared with the real code on '
-                   'an exhaustive small scope plus random chains.'),
-    'level_note': ('Trusted: Lean kernel; extractor vlib/extractors/slice.py; reference LIMIT/OFFSET semantics '
+    'extractors': ['slice', 'getitem'],
+    'technique': 'Lean 4 proof (induction over the slice chain; window algebra) about the source as TRANSLATED on every run (PyMini translation of __getitem__, extracted LIMIT/OFFSET if-chains) + differential correspondence',
+    'level_text': ('Theorems C10_chain_eq_list_slicing / C10_translated_chain_eq_list_slicing: for every row list, every '
+                   'chain of slices and optional index, SelectResults.__getitem__ + the dialect window clause equals '
+                   'Python list slicing, for sqlite, mysql and postgres.  __getitem__ itself is TRANSLATED from /repo on '
+                   'every run into a deeply embedded Python fragment (PyMini) and proved equal to the model on ALL '
+                   'inputs by symbolic execution (C10_translated_slice/index_eq_model); the dialect clause if-chains and '
+                   'the guard in Select.__sqlrepr__ are regenerated too; the translated program is additionally run '
+                   'against the real code on an exhaustive small scope plus random chains.'),
+    'level_note': ('Trusted: Lean kernel; translator vlib/extractors/getitem.py + PyMini semantics (Python semantics of ints/None/and/or/not/if/assert), extractor vlib/extractors/slice.py; reference LIMIT/OFFSET semantics '
                    '(SQLite cross-checked by execution; MySQL `LIMIT n,-1` = to the end and PostgreSQL semantics from '
                    'documentation); the sampling correspondence of __getitem__.'),
     'rule': ('cases = (dialect, table size n, chain of slices, optional index, ordering variant); exhaustive over bounds in '
